@@ -1,6 +1,7 @@
 /- C08 — common-subexpression elimination never changes a result; temporaries are single-assignment
 and ordered. -/
 import FormakVerif.Proofs.Program
+import FormakVerif.Proofs.Poly
 
 namespace FormakVerif.C08
 open FormakVerif
@@ -44,12 +45,39 @@ theorem off_computes (S : Sem α) (args : List Name) (spec : List Expr) :
   intro vals hlen
   exact exec_no_prefix S args spec vals hlen
 
+/-- **The per-block check is a verified checker** (rational fragment): when `checkProgramSym spec p`
+returns `true` — it is run on every post-CSE block the current tree produces, Python and C++ — the
+block is well scoped, has the specified number of outputs, and every inlined output equals the
+specified expression as a real function wherever both are defined. -/
+theorem symbolic_check_sound (spec : List Expr) (p : Program) (h : checkProgramSym spec p = true) :
+    p.WellScoped = true ∧ p.inline.length = spec.length ∧
+    ∀ (i : Nat) (h1 : i < p.inline.length) (h2 : i < spec.length) (ρ : Name → ℝ),
+      DefinedR ρ (p.inline[i]) → DefinedR ρ (spec[i]) → evalR ρ (p.inline[i]) = evalR ρ (spec[i]) :=
+  checkProgramSym_sound spec p h
+
+/-- the size-guarded function the driver actually executes answers `some true` only when the verified
+checker does -/
+theorem driver_check_sound (limit : Nat) (spec : List Expr) (p : Program)
+    (h : checkProgramSymB limit spec p = some true) :
+    p.WellScoped = true ∧ p.inline.length = spec.length ∧
+    ∀ (i : Nat) (h1 : i < p.inline.length) (h2 : i < spec.length) (ρ : Name → ℝ),
+      DefinedR ρ (p.inline[i]) → DefinedR ρ (spec[i]) → evalR ρ (p.inline[i]) = evalR ρ (spec[i]) :=
+  checkProgramSym_sound spec p (checkProgramSymB_true limit spec p h)
+
+/-- the equality test underneath: same canonical cross-multiplied polynomials ⇒ same value -/
+theorem equality_check_sound (ρ : Name → ℝ) (e₁ e₂ : Expr) (h : fracEq e₁ e₂ = true)
+    (h₁ : DefinedR ρ e₁) (h₂ : DefinedR ρ e₂) : evalR ρ e₁ = evalR ρ e₂ :=
+  fracEq_sound ρ e₁ e₂ h h₁ h₂
+
 /-! non-vacuity: nested shared temporaries, as `cse` + `simplify` emit them -/
 def exOn : Program where
   args := ["x", "y"]
   pre := [("_t0", .add (.var "x") (.var "y")), ("_t1", .mul (.var "_t0") (.var "_t0"))]
   body := [.add (.var "_t1") (.var "x"), .div (.var "_t1") (.add (.num 1) (.pow (.var "_t0") 2))]
 example : exOn.WellScoped = true := by decide +kernel
+-- (`checkProgramSym … = true` is not shown by `decide`: its canonical form uses merge sort and string keys, which do
+-- not reduce in the kernel; that the hypothesis of `symbolic_check_sound` is met is observed on every run, where the
+-- driver returns `true` for hundreds of real blocks)
 example : exOn.exec ratSem [1, 2] = some [10, 9/10] ∧
     exOn.inline.mapM (fun e => e.eval ratSem (exOn.args.zip [1, 2])) = some [10, 9/10] := by decide +kernel
 -- a block that uses a temporary before it is assigned is not well scoped
